@@ -38,3 +38,10 @@ VARIANTS = [
             (CB, "            self.gate_memo.set(memo_key, gate)\n", ""),
             (CB, "        self.gate_memo = GateMemoizer()\n", "")], P),
 ]
+
+CB7 = "src/jaqalpaq/core/circuitbuilder.py"
+VARIANTS += [
+    fire("c07-relinker-loop-body-not-visited",
+         [(CB7, "        changed, new_statements = self.visit(loop.statements)\n        if changed:\n            return changed, LoopStatement(loop.iterations, new_statements)", "        changed, new_statements = False, loop.statements\n        if changed:\n            return changed, LoopStatement(loop.iterations, new_statements)")],
+         ("C07.3", "LoopStatement.statements:visited"), ("C07",)),
+]
